@@ -1025,7 +1025,7 @@ def make_case(ctx, k, names):
     return name, o, target, ncyc, g
 
 
-def check_object(ctx, trees, cfg, iox, name, o, target, ncyc, meta, exprs, metas):
+def check_object(ctx, trees, cfg, iox, name, o, target, ncyc, meta, exprs, metas, texts=None, hid=None):
     """direct exploration of the property on one object + the Coq expressions for it"""
     import yaml
     try:
@@ -1041,6 +1041,8 @@ def check_object(ctx, trees, cfg, iox, name, o, target, ncyc, meta, exprs, metas
     st0 = state(o)
     text0, r = iox.cycle(o, target)
     ctx.explored += 1
+    if texts is not None:
+        texts[hid] = text0
     # --- correspondence: model vs implementation on node and reloaded state
     try:
         nl = node_lit(text0)
@@ -1341,7 +1343,8 @@ def stage_objects(ctx, st):
     cfg, trees = st["cfg"], st["trees"]
     names = [n for n in INSCOPE if any(e["name"] == n and e["inscope"] for e in st["entries"])]
     ncases = ctx.n(400, 6000)
-    exprs, metas = [], []
+    exprs, metas = st.pop("hist_exprs", ([], []))
+    texts = st.setdefault("texts", {})
     iox = IO()
     try:
         for k in range(ncases):
@@ -1352,20 +1355,229 @@ def stage_objects(ctx, st):
                               dict(kind="gen", case=k), nofail=True)
                 continue
             meta = dict(kind="object", case=k, cls=name, target=target, cycles=ncyc, obj=repr(o)[:600])
-            check_object(ctx, trees, cfg, iox, name, o, target, ncyc, meta, exprs, metas)
+            check_object(ctx, trees, cfg, iox, name, o, target, ncyc, meta, exprs, metas, texts=texts, hid="case:%d" % k)
             if k < 4:
                 ctx.sample(dict(obj=repr(o)[:300], target=target, cycles=ncyc))
     finally:
         iox.close()
-    mism, errors, _ = run_mismatch_cases("C15o", REQ, exprs, defs=st["defs"], chunk=150)
+    procs = spawn_orders(ctx, st, names)          # fresh interpreters run while Coq evaluates the model
+    try:
+        mism, errors, _ = run_mismatch_cases("C15o", REQ, exprs, defs=st["defs"], chunk=150, jobs=12)
+    finally:
+        collect_orders(ctx, st, procs)
     ctx.corr_cases += len(exprs)
     for e in errors:
         ctx.violation("corr-eval-error", "model evaluation failed: " + e[:300], dict(kind="coq-error", log=e), nofail=True)
     for i in mism:
         m = metas[i]
-        ctx.disagree("corr:%s:%s" % (m["what"], m["cls"]),
-                     "model and implementation disagree on %s of a %s" % (m["what"], m["cls"]), m)
+        key = "corr:%s" % m["what"] if m["what"].startswith("history:") else "corr:%s:%s" % (m["what"], m["cls"])
+        ctx.disagree(key, "model and implementation disagree on %s of a %s" % (m["what"], m["cls"]), m)
 
+
+
+# -- history independence: what was saved / printed / compared before must not matter --------------------------
+
+def none_pairs(st):
+    """(class, argument) pairs of the regenerated table: the constructor accepts None and the default is not None"""
+    out = []
+    for e in st["entries"]:
+        if not e["inscope"]:
+            continue
+        for p in e["params"]:
+            if e["none_ok"].get(p.name) and p.default is not None and p.default is not inspect.Parameter.empty:
+                out.append((e["name"], p.name))
+    return out
+
+
+def none_variant(ctx, cn, a):
+    """a valid instance of class cn whose argument a is an explicit None (deterministic in the seed)"""
+    g = Gen(ctx.subrng("none-%s.%s" % (cn, a)), risky=0.0, extreme=0.0)
+    o = g.obj(cn)
+    kw = dict(g.last_kwargs)
+    kw[a] = None
+    with warnings.catch_warnings():
+        warnings.simplefilter("ignore")
+        return type(o)(**kw)
+
+
+def touch_ancestors(ctx, cls, tag, log):
+    """save, print and compare an instance of every HoloPyObject ancestor class of cls (generated instance where the
+    class is in scope, else A() or a bare instance)"""
+    from holopy.core.holopy_object import HoloPyObject
+    for A in cls.__mro__[1:]:
+        if not (isinstance(A, type) and issubclass(A, HoloPyObject)) or A is HoloPyObject:
+            continue
+        inst = None
+        if A.__name__ in INSCOPE:
+            try:
+                inst = Gen(ctx.subrng("anc-%s-%s" % (tag, A.__name__)), risky=0.0, extreme=0.0).obj(A.__name__)
+            except Exception:  # noqa
+                inst = None
+        if inst is None:
+            try:
+                inst = A()
+            except Exception:  # noqa
+                inst = A.__new__(A)
+        for op in ("save", "repr", "eq"):
+            try:
+                if op == "save":
+                    saved_text(inst)
+                elif op == "repr":
+                    repr(inst)
+                else:
+                    inst == inst.__class__.__new__(inst.__class__)
+                log.append("%s:%s" % (A.__name__, op))
+            except Exception:  # noqa
+                pass
+
+
+def history_pair(ctx, st, iox, cn, a, exprs, metas, texts):
+    by = {e["name"]: e for e in st["entries"]}
+    log = []
+    touch_ancestors(ctx, by[cn]["cls"], "%s.%s" % (cn, a), log)
+    try:
+        o = none_variant(ctx, cn, a)
+    except Exception as e:  # noqa
+        ctx.count("history-ungenerated")
+        return
+    if getattr(o, a, None) is not None:
+        return          # the constructor replaces None (computed default): nothing to lose
+    meta = dict(kind="history-none", cls=cn, arg=a, before=log, obj=repr(o)[:400])
+    ctx.count("history-pair")
+    ctx.nontriv(("history", cn, a))
+    text, r = iox.cycle(o, "stream")
+    ctx.explored += 1
+    texts["none:%s.%s" % (cn, a)] = text
+    try:
+        t0 = st["trees"].tree(o)
+        exprs.append("node_eqb (to_node Cfg Tbl %s) %s" % (olit(t0), node_lit(text)))
+        metas.append(dict(meta, what="history:to_node", text=text))
+        if not isinstance(r, Exception):
+            exprs.append("oobj_eqb (from_node Tbl (to_node Cfg Tbl %s)) (Some %s)" %
+                         (olit(t0), olit(norm(st["trees"].tree(r, reloaded=True)))))
+            metas.append(dict(meta, what="history:from_node", text=text))
+    except Unencodable:
+        pass
+    if isinstance(r, Exception):
+        key, what = classify_load_error(ctx, r, None, st["cfg"], "object")
+        ctx.violation(key, "%s(%s=None) after %s: %s" % (cn, a, log[:3], what), dict(meta, text=text))
+        return
+    if getattr(r, a, None) is not None:
+        ctx.violation("history:none-skip", "%s(%s=None), saved after an object of a parent class was saved/printed/compared, "
+                      "reloads with %s=%r" % (cn, a, a, getattr(r, a)), dict(meta, text=text, reloaded=repr(r)[:300]))
+        return
+    t2 = saved_text(r)
+    if t2 != text:
+        ctx.violation("history:text", "second save of %s(%s=None) differs from the first" % (cn, a),
+                      dict(meta, first=text, second=t2))
+
+
+def stage_history_none(ctx, st):
+    """(a) ancestors first, then the subclass with the explicit None; compared with the model as well"""
+    exprs, metas = [], []
+    texts = st.setdefault("texts", {})
+    iox = IO()
+    try:
+        for cn, a in none_pairs(st):
+            history_pair(ctx, st, iox, cn, a, exprs, metas, texts)
+    finally:
+        iox.close()
+    st["hist_exprs"] = (exprs, metas)       # evaluated together with the object cases (one coqc batch)
+
+
+VERIF_DIR = os.path.dirname(os.path.dirname(os.path.dirname(os.path.abspath(__file__))))
+HIST_DIR = os.path.join(VERIF_DIR, "build", "run", "C15h")
+
+
+def order_items(ctx, st, names):
+    n = min(ctx.n(400, 6000), ctx.n(130, 700))
+    items = [["case", k] for k in range(n)] + [["none", cn, a] for cn, a in none_pairs(st)]
+    return items
+
+
+def spawn_orders(ctx, st, names):
+    """(b) the same objects, dumped in other orders, each order in a FRESH interpreter (a per-process cache keeps
+    whatever the first order put there, so re-ordering inside one process would see nothing)"""
+    import json
+    import random
+    import subprocess
+    import sys
+    os.makedirs(HIST_DIR, exist_ok=True)
+    items = order_items(ctx, st, names)
+    procs = []
+    for tag in ("reversed", "shuffled"):
+        order = list(items)
+        if tag == "reversed":
+            order.reverse()
+        else:
+            random.Random("%s-%d-order" % (ctx.pid, ctx.seed)).shuffle(order)
+        spec = os.path.join(HIST_DIR, "spec_%s.json" % tag)
+        out = os.path.join(HIST_DIR, "out_%s.json" % tag)
+        if os.path.exists(out):
+            os.remove(out)
+        with open(spec, "w") as f:
+            json.dump(dict(seed=ctx.seed, tier=ctx.tier, names=names, order=order, out=out), f)
+        p = subprocess.Popen([sys.executable, "-W", "ignore", "-m", "harness.props.c15", spec],
+                             cwd=VERIF_DIR,
+                             stdout=subprocess.PIPE, stderr=subprocess.STDOUT, text=True)
+        procs.append((tag, p, out, order))
+    return procs
+
+
+def item_id(it):
+    return "case:%d" % it[1] if it[0] == "case" else "none:%s.%s" % (it[1], it[2])
+
+
+def collect_orders(ctx, st, procs):
+    import json
+    ref = st.get("texts", {})
+    for tag, p, out, order in procs:
+        try:
+            log, _ = p.communicate(timeout=ctx.n(240, 900))
+        except Exception:  # noqa
+            p.kill()
+            log = "timeout"
+        if p.returncode != 0 or not os.path.exists(out):
+            ctx.violation("history:child-crash", "fresh interpreter for order '%s' failed: %s" % (tag, (log or "")[-300:]),
+                          dict(kind="history-order", order=tag, log=(log or "")[-2000:]), nofail=True)
+            continue
+        got = json.load(open(out))
+        ctx.count("order:%s" % tag, len(got))
+        for pos, it in enumerate(order):
+            i = item_id(it)
+            if i not in ref or i not in got:
+                continue
+            ctx.explored += 1
+            if got[i] != ref[i]:
+                before = [item_id(x) for x in order[max(0, pos - 5):pos]]
+                ctx.violation("history:order", "the saved text of the same object depends on what was saved before it: %s "
+                              "(order '%s' in a fresh interpreter vs the main run)" % (i, tag),
+                              dict(kind="history-order", item=it, order=tag, position=pos, saved_just_before=before,
+                                   text_main_run=ref[i], text_this_order=got[i]))
+                break
+
+
+def child_main(specfile):
+    """fresh interpreter: dump the listed objects in the given order, write {id: text}"""
+    import json
+    from harness.lib.ctx import Ctx
+    spec = json.load(open(specfile))
+    ctx = Ctx("C15", tier=spec["tier"], seed=spec["seed"])
+    boot.boot()
+    warnings.simplefilter("ignore")
+    import_everything()
+    out = {}
+    for it in spec["order"]:
+        try:
+            if it[0] == "case":
+                name, o, target, ncyc, g = make_case(ctx, it[1], spec["names"])
+            else:
+                o = none_variant(ctx, it[1], it[2])
+            out[item_id(it)] = saved_text(o)
+        except Exception as e:  # noqa
+            out[item_id(it)] = "ERR %s" % type(e).__name__
+    with open(spec["out"], "w") as f:
+        json.dump(out, f)
 
 # -- models (own _iteritems / from_yaml through C11's maps): explored, not modelled -------------------------
 
@@ -1549,7 +1761,10 @@ def run(ctx):
                             "text identity of the second save (anchors are decided by Python object identity)",
                             "library == on reloaded objects", "models: parameter names, ties, maps, priors, scatterer/theory state "
                             "(Model._iteritems / from_yaml go through C11's maps, not modelled here)",
-                            "hp.save / hp.load dispatch for file and stream targets"]
+                            "hp.save / hp.load dispatch for file and stream targets",
+                            "history independence: ancestors saved/printed/compared first, then the subclass with an explicit "
+                            "None (every pair of the table); the same objects dumped in reversed / shuffled order in fresh "
+                            "interpreters give the identical text"]
     ctx.trusted += ["oracle: PyYAML emitter/scanner/resolver (text <-> node tree; its scalar formatting is exercised, not modelled)",
                     "oracle: each constructor re-creates the same attributes from the attributes it stored (probed per run on "
                     "generated instances: the `astored` column of the class table)",
@@ -1563,6 +1778,7 @@ def run(ctx):
     st = {}
     guarded(ctx, "table", stage_table, ctx, st)
     if "trees" in st:
+        guarded(ctx, "history", stage_history_none, ctx, st)
         guarded(ctx, "objects", stage_objects, ctx, st)
         guarded(ctx, "models", stage_models, ctx, st)
 
@@ -1589,6 +1805,29 @@ def replay(ctx, data):
         mism, errors, _ = run_mismatch_cases("C15o", REQ, exprs, defs=st["defs"])
         for i in mism:
             ctx.disagree("corr:%s:%s" % (metas[i]["what"], name), "model and implementation disagree", metas[i])
+    elif kind == "history-none" and "trees" in st:
+        iox = IO()
+        exprs, metas = [], []
+        try:
+            history_pair(ctx, st, iox, d["cls"], d["arg"], exprs, metas, {})
+        finally:
+            iox.close()
+        print("replay: %s(%s=None) after %s" % (d["cls"], d["arg"], d.get("before")))
+        mism, errors, _ = run_mismatch_cases("C15o", REQ, exprs, defs=st["defs"])
+        for i in mism:
+            ctx.disagree("corr:%s:%s" % (metas[i]["what"], d["cls"]), "model and implementation disagree", metas[i])
+    elif kind == "history-order" and "trees" in st:
+        names = [n for n in INSCOPE if any(e["name"] == n and e["inscope"] for e in st["entries"])]
+        stage_history_none(ctx, st)
+        st.pop("hist_exprs", None)
+        texts = st["texts"]
+        for it in order_items(ctx, st, names):
+            if it[0] == "case":
+                try:
+                    texts[item_id(it)] = saved_text(make_case(ctx, it[1], names)[1])
+                except Exception:  # noqa
+                    pass
+        collect_orders(ctx, st, spawn_orders(ctx, st, names))
     elif kind == "model":
         ctx_n = ctx.n
         ctx.n = lambda q, t: d["case"] + 1
@@ -1597,3 +1836,9 @@ def replay(ctx, data):
     else:
         print("replay: table-level finding; the table stage has been re-run")
     ctx.violations = [v for v in ctx.violations if v["key"] == data["key"]]
+
+
+if __name__ == "__main__":
+    import sys
+    from harness.props import c15 as _self      # so that module-level example functions keep their importable name
+    _self.child_main(sys.argv[1])
